@@ -318,62 +318,3 @@ def make_storage_spy(cls, log, inj, *args, **kwargs):
     obj._spy_inj = inj
     return obj
 
-
-# ------------------------------------------------------------------------------------------ observer poke
-_POKE_SKIP = ('update', 'explain', 'learn', 'impute', 'predict', 'fit', 'reset', 'clone', 'revert', 'mutate')
-
-
-def poke(*objs, depth=1):
-    """Call every public READ-ONLY accessor of the given real objects the way a monitoring caller would between two
-    operations: properties, __len__, __repr__, __str__, __bool__, zero-argument __call__ (trackers), `get` /
-    `get_*` / `N`-style methods whose parameters all have defaults, `get_confidence_bound(0.05)`; with depth=1 also on
-    the objects' public and private attribute values that are library objects (trackers, storages, imputers). Results
-    are discarded and exceptions ignored: the oracles of the calling check decide whether the later behaviour is still
-    right, so an accessor with a side effect (a lazy cache that goes stale, a counter advanced by a lookup, a
-    defaultdict entry created by reading) shows up as an ordinary violation of the property."""
-    import inspect
-    seen = set()
-
-    def one(o, d):
-        if o is None or id(o) in seen or not type(o).__module__.startswith('ixai'):
-            # spies subclass the real classes inside ixverif: look at the first library base
-            if o is None or id(o) in seen or not any(c.__module__.startswith('ixai') for c in type(o).__mro__):
-                return
-        seen.add(id(o))
-        cls = type(o)
-        for name in dir(cls):
-            if name.startswith('_') or any(s in name for s in _POKE_SKIP):
-                continue
-            try:
-                attr = inspect.getattr_static(cls, name)
-            except AttributeError:
-                continue
-            try:
-                if isinstance(attr, property):
-                    getattr(o, name)
-                elif callable(attr) and (name == 'get' or name.startswith('get_') or name == 'N'):
-                    if name == 'get_confidence_bound':
-                        getattr(o, name)(0.05)
-                        continue
-                    sig = inspect.signature(getattr(o, name))
-                    if all(p.default is not p.empty or p.kind in (p.VAR_POSITIONAL, p.VAR_KEYWORD)
-                           for p in sig.parameters.values()):
-                        getattr(o, name)()
-            except Exception:
-                pass
-        for f in (len, repr, str, bool):
-            try:
-                f(o)
-            except Exception:
-                pass
-        if 'tracker' in cls.__module__ or any('tracker' in c.__module__ for c in cls.__mro__):
-            try:
-                o()
-            except Exception:
-                pass
-        if d > 0:
-            for v in list(getattr(o, '__dict__', {}).values()):
-                one(v, d - 1)
-
-    for o in objs:
-        one(o, depth)
